@@ -64,9 +64,10 @@ Definition Paints (c : cfg) (t : term) (content : list crow) (cursor : option (Z
   grid_shows c content (t_grid t) /\ cursor_shown t cursor /\ t_scrolled t = false.
 
 (* ---------- the canvases the theorems speak about ---------- *)
-(* printable characters of width 1 (or 2 under UTF-8); no C0 control characters, no zero-width characters *)
+(* printable characters of width 1 (or 2 under UTF-8); no C0 control characters, no zero-width characters;
+   the space is one column wide *)
 Definition chr_ok (utf8 : bool) (ch : chr) : Prop :=
-  32 <= fst ch /\ (snd ch = 1 \/ (utf8 = true /\ snd ch = 2)).
+  32 <= fst ch /\ (snd ch = 1 \/ (utf8 = true /\ snd ch = 2)) /\ (fst ch = 32 -> snd ch = 1).
 (* non-empty runs; no charset flags under UTF-8, None or "0" (DEC special graphics) otherwise *)
 Definition run_ok (c : cfg) (r : crun) : Prop :=
   let '(a, cs, text) := r in
